@@ -18,7 +18,12 @@ pub(super) fn parse(bytes: &[u8]) -> Result<TimeZone, Error> {
             }
         },
         Version::V2 | Version::V3 => {
+            let first_version = state.header.version;
             let state = State::new(&mut cursor, false)?;
+            // the second header repeats the first: the data block is decoded with ITS version byte
+            if state.header.version != first_version {
+                return Err(Error::InvalidTzFile("TZif versions of the two headers differ"));
+            }
             (state, Some(cursor.remaining()))
         }
     };
